@@ -1,3 +1,5 @@
 import Vet.Props.Search
+import Vet.Props.Build
 #print axioms Vet.search_complete
 #print axioms Vet.search_fuel_enough
+#print axioms Vet.build_complete
